@@ -8,7 +8,7 @@ RULE = ("writer-level: every vrl in the tier's list x every body length in W(cap
         "{vrl, 65536}, plus all ordered pairs of a 19-value boundary window and 27 triples for small/special vrl; "
         "label: sequence numbers x identifier lengths; end-to-end: four specifications (minimal, two frames, no-format, "
         "rich with 13 object kinds) written through DLISFile.write at every vrl of the list x input chunk x output "
-        "chunk; a case is non-trivial when the write succeeded and the strict "
+        "chunk, with label / header given as ready-made objects, the label re-configured afterwards, a longer / shorter file already at the target path; set identifiers with blanks at either end; a case is non-trivial when the write succeeded and the strict "
         "framing parser ran over the bytes; cases are distinct by construction")
 ASSUMPTIONS = ["strict reader mc/rp66.py (self-tested at start) is the trusted oracle",
                "bodies longer than 3*cap+14 are not enumerated (splitting loop is uniform beyond the 2nd iteration)"]
